@@ -1,8 +1,8 @@
 use std::collections::BTreeSet;
 
 use crate::{
-    AnyStoredVec, Bytes, ChangeCursor, ChangeData, ReadWriteBaseVec, Result, SIZE_OF_U64, VecIndex,
-    VecValue,
+    AnyVec, Bytes, ChangeCursor, ChangeData, Error, ReadWriteBaseVec, Result,
+    SIZE_OF_U64, VecIndex, VecValue,
 };
 
 use super::{super::RawStrategy, ReadWriteRawVec, change::RawChangeData};
@@ -83,7 +83,6 @@ where
             base:
                 ChangeData {
                     prev_stamp,
-                    prev_stored_len,
                     truncated_start,
                     truncated_values,
                     prev_pushed,
@@ -93,23 +92,33 @@ where
             prev_holes,
         } = Self::parse_raw_change_data(bytes)?;
 
-        // Only needed when the rolled-back flush appended (prev_stored_len <
-        // current): any holes/updated in the now-gone range must be dropped.
-        if prev_stored_len < self.stored_len() {
-            self.truncate_dirty_at(prev_stored_len);
+        // Like the compressed formats, values the data region no longer holds are
+        // re-queued in `pushed`, so `stored_len` never exceeds what is on disk (an
+        // overlay beyond the region's length could not be written back by write()
+        // once something was pushed, and read-only clones would read past the end).
+        let (stored_len, pushed) =
+            self.base
+                .rollback_parts(truncated_start, truncated_values, prev_pushed)?;
+        if let Some(&(index, _)) = modifications
+            .iter()
+            .find(|(i, _)| *i >= stored_len + pushed.len())
+        {
+            return Err(Error::IndexTooHigh {
+                index,
+                len: stored_len + pushed.len(),
+                name: self.name().to_string(),
+            });
         }
 
-        // Truncated values overlay via `updated` at indices beyond the
-        // current on-disk length; the next write() extends the region.
-        self.base
-            .apply_rollback(prev_stamp, prev_stored_len, prev_pushed);
-        for (i, val) in truncated_values.into_iter().enumerate() {
-            self.mut_updated().insert(truncated_start + i, val);
-        }
+        // Holes/updated in the range that is replaced must be dropped.
+        self.truncate_dirty_at(stored_len);
+        self.base.apply_rollback(prev_stamp, stored_len, pushed);
 
         for (idx, val) in modifications {
             self.update_at(idx, val)?;
         }
+        // Restored slots may live in the re-queued buffer: snapshot it afterwards.
+        self.base.save_prev_for_rollback();
 
         if !prev_holes.is_empty() || !self.holes().is_empty() || !self.prev_holes().is_empty() {
             *self.holes.current_mut() = prev_holes;
